@@ -261,8 +261,11 @@ def add_dependency_not_native_checkpoint(rng, case):
     if tgt is None:
         return None
     choice = rng.random()
-    if choice < 0.4:
+    if choice < 0.2:
         add = ("checkpoint", 900 + rng.randrange(50))
+    elif choice < 0.4:
+        # the next free checkpoint ids of the native schema: where stitched checkpoints land
+        add = ("checkpoint", max([c["id"] for c in case["native"]["checkpoints"]] + [0]) + rng.choice([1, 1, 2, 3]))
     elif choice < 0.7 and imp["schema"]["checkpoints"]:
         add = ("checkpoint", imp["base"] + rng.choice(imp["schema"]["checkpoints"])["id"])
     else:
